@@ -6,6 +6,7 @@ import hashlib
 import json
 import os
 import re
+import shutil
 import subprocess
 import time
 import traceback
@@ -42,6 +43,12 @@ class Ctx:
             return
         t0 = time.time()
         self.scratch = common.new_scratch("mir")
+        if getattr(self, "inject_macros", False):
+            # C20: the macros expand in the caller's crate; kani/verif_macros.rs calls each of them from inside a scratch copy of
+            # the crate so that the expansions are part of this dump (nothing is added to /repo)
+            shutil.copy2(os.path.join(common.VERIF, "kani", "verif_macros.rs"), os.path.join(self.scratch, "src", "verif_macros.rs"))
+            with open(os.path.join(self.scratch, "src", "lib.rs"), "a") as f:
+                f.write("\npub mod verif_macros;\n")
         out = os.path.join(self.scratch, "mir.txt")
         cmd = ["cargo", "+nightly", "rustc", "--offline", "--lib", "--target-dir", os.path.join(self.scratch, "target"),
                "--", "-Zunpretty=mir", "-C", "debug-assertions=off", "-C", "overflow-checks=on"]
@@ -235,6 +242,7 @@ def run(prop, tier, logdir, only=None):
     if not todo:
         return []
     ctx = Ctx(logdir, tier)
+    ctx.inject_macros = prop in ("C20", "C12")  # wrappers that expand the assert_vfs_* macros inside the crate
     units = []
     try:
         try:
